@@ -28,7 +28,7 @@ RULES = [
  (r'^<value::UIntValue as std::convert::TryFrom<&\[u8\]>>::try_from$', r'^(unwrap\|unwrap|assert\|BoundsCheck)', 'G5', 'G5 each arm converts a slice whose length was just matched (1,2,4,8,16,32) into the array of that length'),
  (r'^value::UIntValue::parse_binary$', r'.*', 'G5', 'G5 bit_len is a power of two naming an integer type (both ok_or guards passed): byte_len = ceil(bit_len/8) >= 1, padded_bits has exactly 8*byte_len items (padding = 8 - bit_len for sub-byte widths), so next().unwrap(), bytes[0] and try_from(bytes) (len in 1,2,4,8,16,32) hold; the debug_asserts bound a sub-byte value by its padding; byte << 1 shifts by a constant'),
  (r'^<num::U256 as std::convert::From<u(8|16|32|64|128)>>::from$', r'.*', 'G6', 'constant ranges inside a 32-byte array'),
- (r'^(<str::JetName as parse::PestParse>::parse|<str::Binary as parse::PestParse>::parse|<str::Hexadecimal as parse::PestParse>::parse)$', r'^unwrap\|unwrap', 'G5', 'G5 strip_prefix of the literal prefix the grammar rule starts with (jet:: / 0b / 0x), checked by rule R11.4/R06.4'),
+ (r'^(<str::JetName as parse::PestParse>::parse|<str::Binary as parse::PestParse>::parse|<str::Hexadecimal as parse::PestParse>::parse)$', r'^unwrap\|unwrap', 'G5', 'G5 strip_prefix of the literal prefix the grammar rule starts with (jet:: / 0b / 0x), checked by rule R06.4'),
  (r'^<types::UIntType as parse::PestParse>::parse$', r'^panic', 'G5', 'G5 string match covers the literal set of grammar rule unsigned_type (checked by rule R07.4 table agreement)'),
  (r'^<A as parse::ParseFromStr>::parse_from_str$', r'^unwrap\|unwrap', 'API', 'pest: a successful parse(rule, s) yields exactly one top-level pair'),
  # ---- analysis preconditions
